@@ -102,7 +102,7 @@ func vCallSetter(i int, form int, b bool, s string) {
 		}
 	case 12:
 		if b {
-			SetCheckTagToSkipFunc(func(string) bool { return false })
+			SetCheckTagToSkipFunc(func(string) bool { return true }) // skip every tag
 		} else {
 			SetCheckTagToSkipFunc(nil)
 		}
